@@ -36,6 +36,8 @@ def tasks(tier):
         ts.append(Task('verifHarness_C01_v2', [n, 1, 0]))
     for shape in range(4):
         ts.append(Task('verifHarness_C06_writemessage', [shape], {'x25_uf': True}))
+    for n in (0, 1, 31, 32, 33, 64):
+        ts.append(Task('verifHarness_C06_key', [n]))
     # (d) the node hands its keys to each channel's reader and writer
     for version in (1, 2):
         for ik in (0, 1):
@@ -45,12 +47,13 @@ def tasks(tier):
 
 
 def required_reach(tier):
-    return ['C06/a', 'C06/b', 'C09/S', 'C06/c', 'C06/d']
+    return ['C06/a', 'C06/b', 'C09/S', 'C06/c', 'C06/d', 'C06/e']
 
 
 def bounds(tier):
     return {'payload_lengths': lens(tier),
             'symbolic': 'all 32 key bytes, every header byte, id, payload bytes, checksum, link id, 48-bit timestamp, carried signature',
+            'key_value': 'NewV2Key on slices of 0,1,31,32,33,64 symbolic bytes: copies (zero padded / cut at 32) and stays independent of the argument afterwards',
             'hash': 'SHA-256 is an uninterpreted absorb chain: unsat means for every hash function the implementation feeds exactly '
                     'the spec byte stream, keeps the first six digest bytes and compares all six'}
 
